@@ -179,6 +179,54 @@ var reDanglingLF = regexp.MustCompile(`^[eE][+-]?\n`)
 var reDanglingCR = regexp.MustCompile(`^[eE][+-]?\r`)
 var reSrcDanglingLF = regexp.MustCompile(`[0-9.][eE][+-]?\n`)
 
+// expectedGhost: the reading of the model's ghost flags in terms of the source alone.
+// bad[i]: some NUMBER token before token i has no exponent part and is directly followed in
+// the source by a dangling exponent ([eE][+-]?) and then CR or LF.  over: the stream ends with an ILLEGAL "didn't find
+// end quote/slash" token and the source ends with an odd number of backslashes.
+// ok=false when the true offset of a NUMBER token could not be determined (never on the
+// unchanged tree).
+func expectedGhost(src []byte, toks []gtok) (bad []bool, over bool, ok bool) {
+	m := posMap(src)
+	bad = make([]bool, len(toks))
+	flagged := false
+	lastK := -1
+	for i, t := range toks {
+		bad[i] = flagged
+		if flagged || t.tok == lexer.ILLEGAL {
+			continue
+		}
+		k := -1
+		for _, c := range offsetsOf(m, t.pos) {
+			if textAt(src, c, t) && (c > lastK || (t.tok == lexer.REGEX && c >= lastK)) {
+				k = c
+			}
+		}
+		if k < 0 {
+			return nil, false, false
+		}
+		lastK = k
+		if t.tok == lexer.NUMBER && !strings.ContainsAny(t.val, "eE") {
+			after := src[k+len(t.val):]
+			if reDanglingLF.Match(after) || reDanglingCR.Match(after) {
+				flagged = true
+			}
+		}
+	}
+	if bytes.IndexByte(src, 0) >= 0 {
+		// a NUL byte ends the lexer's input early; the reading of "over" below is for NUL-free sources
+		return bad, false, len(toks) == 0 || toks[len(toks)-1].tok != lexer.ILLEGAL
+	}
+	if n := len(toks); n > 0 && toks[n-1].tok == lexer.ILLEGAL &&
+		(toks[n-1].val == "didn't find end quote in string" || toks[n-1].val == "didn't find end slash in regex") {
+		run := 0
+		for j := len(src) - 1; j >= 0 && src[j] == '\\'; j-- {
+			run++
+		}
+		over = run%2 == 1
+	}
+	return bad, over, true
+}
+
 // checkLex evaluates the position equations on one token stream; reports the first failure.
 func checkLex(src []byte, mode string, toks []gtok, panicked bool, origin string, rep *hx.Report) {
 	detail := func(extra map[string]any) map[string]any {
@@ -235,7 +283,7 @@ func checkLex(src []byte, mode string, toks []gtok, panicked bool, origin string
 			return
 		}
 		lastK = k
-		if t.tok == lexer.NUMBER && cause == "" {
+		if t.tok == lexer.NUMBER && cause == "" && !strings.ContainsAny(t.val, "eE") {
 			after := src[k+len(t.val):]
 			if reDanglingLF.Match(after) {
 				cause = "number-with-dangling-exponent-before-LF"
@@ -600,6 +648,55 @@ func runLexCases(cases []lexCase, o hx.Opts, rep *hx.Report) {
 		rep.HarnessError("%v", err)
 		return
 	}
+	// the model's ghost flags (the guards of the partial theorems) against their reading in
+	// terms of the source text
+	var glines []string
+	var gidx []int
+	for i, c := range cases {
+		if c.origin == "exhaustive" || c.origin == "witness" || i%2 == 0 {
+			glines = append(glines, "ghost"+strings.TrimPrefix(lines[i], "lex"))
+			gidx = append(gidx, i)
+		}
+	}
+	ghost, err := hx.ModelEval(o.ModelRun, glines)
+	if err != nil {
+		rep.HarnessError("%v", err)
+		return
+	}
+	for j, i := range gidx {
+		toks, _, panicked := goLex(cases[i].src, cases[i].mode)
+		if panicked || !strings.HasPrefix(model[i], "ok ") || model[i] != impl[i] {
+			continue
+		}
+		bad, over, ok := expectedGhost(cases[i].src, toks)
+		if !ok {
+			continue
+		}
+		parts := make([]string, len(toks))
+		for k := range toks {
+			b, ov := "0", "0"
+			if bad[k] {
+				b = "1"
+			}
+			if over && k == len(toks)-1 {
+				ov = "1"
+			}
+			parts[k] = b + ":" + ov
+		}
+		want := strings.Join(parts, " ")
+		gf := strings.Fields(strings.TrimPrefix(ghost[j], "ok"))
+		for k := range gf {
+			if c := strings.SplitN(gf[k], ":", 2); len(c) == 2 {
+				gf[k] = c[1] // drop the start offset
+			}
+		}
+		rep.CorrEvals++
+		rep.Count("ghost:" + cases[i].origin)
+		if got := strings.Join(gf, " "); got != want {
+			rep.Mismatch(hx.Mismatch{Class: "ghost-flags:" + cases[i].origin, Input: glines[j], Impl: want, Model: got,
+				Note: "model ghost flags (bad:over per token) vs their source-level reading computed from the implementation's tokens"})
+		}
+	}
 	for i, c := range cases {
 		rep.CorrEvals++
 		rep.Count("lex:" + c.origin + ":mode" + c.mode)
@@ -813,7 +910,7 @@ func main() {
 
 	// 5. CLI on a sample of erroring sources (all witnesses, then random)
 	buildCLI(rep)
-	cliN := 80
+	cliN := 50
 	if thorough {
 		cliN = 4000
 	}
